@@ -154,12 +154,14 @@ func (w *World) info(key string, pos token.Pos, reason string) { w.add(VInfo, ke
 // floor guards a rule against passing vacuously: the number of instances it matched must not fall
 // far below the number confirmed by hand on the tree the rule was written for. Small merges and
 // extractions (two call sites folded into a helper) are routine maintenance, so the threshold is
-// two thirds of the confirmed count (exact for counts up to 2); a matcher that rotted finds none
+// two thirds of the confirmed count (one for a count of 2, exact for 1); a matcher that rotted finds none
 // or a fraction and still fails.
 func (w *World) floor(name string, got, want int) {
 	eff := want
 	if want > 2 {
 		eff = (2*want + 2) / 3
+	} else if want == 2 {
+		eff = 1 // two call sites folded into one helper is routine maintenance
 	}
 	if got < eff {
 		w.undecided("floor:"+name, token.NoPos, fmt.Sprintf("rule matched %d instance(s) of %s, fewer than the floor %d (%d confirmed by hand): the anchored code moved or the matcher rotted; review", got, name, eff, want))
